@@ -2,6 +2,7 @@
 from givc.contracts import contract, inline
 from . import schema   # noqa
 from . import c11_message  # noqa  (message.* contracts)
+from . import c05_introspectable  # noqa  (index / field lookups)
 from .c02_defaults import denotes, BASIC_NAMES
 from giscanner import ast
 
@@ -210,4 +211,84 @@ contract(MT + '_apply_annotations_param_ret_common',
                                            "else tag.annotations.get('transfer')[0]))",
              # ---- C02: untyped pointers are nullable by default
              'C02.gpointer_nullable': "implies(denotes(node.type, ('gpointer',)) and not has(tag, 'not'), node.nullable == True)",
+         })
+
+
+# ------------------------------------------------------------------------------------------------
+# (array ...): zero-termination, fixed size, length parameter (and the length parameter following the direction)
+contract('giscanner.ast.Callable.get_parameter', params={'self': 'Callable', 'name': 'str?'}, returns='Parameter',
+         trusted=True, pure_keys=['self', 'name'], raises={'ValueError': 'maybe'},
+         ensures={'names_it': 'result.argname == name'},
+         note='linear search over instance parameter + parameters (list concatenation not modelled)')
+
+contract(MT + '_resolve',
+         params={'self': 'MainTransformer', 'type_str': 'str', 'type_node': 'Type?', 'node': 'any', 'parent': 'any'},
+         returns='Type', fresh_result=True, trusted=True, modifies=['LOGGER._warning_count'], raises={'KeyError': 'maybe'},
+         ensures={'count_monotone': 'LOGGER._warning_count >= old(LOGGER._warning_count)'},
+         note='type-string parser of (element-type ...) / (type ...): not under contract')
+
+contract(MT + '_get_validate_parameter_name',
+         params={'self': 'MainTransformer', 'parent': 'Callable', 'param_name': 'str', 'origin': 'Parameter|Return'},
+         returns='str', props=('C01',), modifies=['LOGGER._warning_count'],
+         raises={'SystemExit': 'True'},
+         ensures={'C01.array.length_names_an_existing_parameter':
+                  'result == param_name and parent.get_parameter(param_name).argname == param_name',
+                  'C01.array.length_lookup_is_quiet': 'LOGGER._warning_count == old(LOGGER._warning_count)'},
+         note='an unknown name is a fatal diagnostic (SystemExit), never a silently wrong index')
+
+contract(MT + '_get_validate_field_name',
+         params={'self': 'MainTransformer', 'parent': 'Compound', 'field_name': 'str', 'origin': 'Field'},
+         returns='str', props=('C01',), modifies=['LOGGER._warning_count'],
+         raises={'SystemExit': 'True'},
+         ensures={'C01.array.length_names_an_existing_field': 'result == field_name',
+                  'C01.array.length_field_lookup_is_quiet': 'LOGGER._warning_count == old(LOGGER._warning_count)'})
+inline('giscanner.ast.Type.clone', 'giscanner.ast.Array.clone', 'giscanner.ast.List.clone', 'giscanner.ast.Map.clone')
+
+
+def zt_written(opts):
+    return 'zero-terminated' in opts
+
+
+def zt_expected(opts):
+    """(array zero-terminated) and zero-terminated=1 mean true, zero-terminated=0 means false"""
+    return opts['zero-terminated'] != '0'
+
+
+def is_decimal(s):
+    return s is not None and s != '' and s.isdigit()
+
+
+ARR_APPLIED = "isinstance(node.type, ast.Array) and node.type is not old(node.type)"
+contract(MT + '_apply_annotations_array',
+         params={'self': 'MainTransformer', 'parent': 'Callable|Compound', 'node': 'Parameter|Return|Field',
+                 'annotations': 'Annotations'},
+         props=('C01',), requires=["'array' in annotations", 'node.type is not None',
+                                   'isinstance(parent, ast.Compound) == isinstance(node, ast.Field)'],
+         let={'opts': "annotations['array']"},
+         modifies=['node.type', '*.direction', '*.transfer', 'LOGGER._warning_count'],
+         raises={'KeyError': 'True', 'SystemExit': 'True', 'AssertionError': 'True', 'ValueError': 'True'},
+         ensures={
+             'C01.array.becomes_an_array': "implies(not opts.get('fixed-size'), " + ARR_APPLIED + ")",
+             'C01.array.zero_terminated_as_written':
+                 "implies(" + ARR_APPLIED + " and zt_written(opts), node.type.zeroterminated == zt_expected(opts))",
+             'C01.array.not_zero_terminated_when_not_written':
+                 "implies(" + ARR_APPLIED + " and not zt_written(opts), not node.type.zeroterminated)",
+             'C01.array.fixed_size_as_written':
+                 "implies(" + ARR_APPLIED + " and opts.get('fixed-size'), node.type.size is not None and "
+                 "str(node.type.size) == opts['fixed-size'])",
+             'C01.array.no_fixed_size_when_not_written':
+                 "implies(" + ARR_APPLIED + " and not opts.get('fixed-size'), node.type.size is None)",
+             'C01.array.length_parameter_as_written':
+                 "implies(" + ARR_APPLIED + " and opts.get('length'), node.type.length_param_name == opts['length'])",
+             'C01.array.no_length_when_not_written':
+                 "implies(" + ARR_APPLIED + " and not opts.get('length'), node.type.length_param_name is None)",
+             'C01.array.length_parameter_follows_direction':
+                 "implies(" + ARR_APPLIED + " and opts.get('length') and isinstance(parent, ast.Callable), "
+                 "parent.get_parameter(opts['length']).direction == node.direction and "
+                 "implies(node.direction == 'out', parent.get_parameter(opts['length']).transfer == 'full'))",
+             'C01.array.keeps_ctype': "implies(" + ARR_APPLIED + ", node.type.ctype == old(node.type.ctype) and "
+                                      "node.type.complete_ctype == old(node.type.complete_ctype))",
+             'C01.array.container_kind_kept': "implies(" + ARR_APPLIED + " and isinstance(old(node.type), ast.Array), "
+                                              "node.type.array_type == old(node.type.array_type))",
+             'C01.array.own_direction_kept': 'implies(not isinstance(node, ast.Field), node.direction == old(node.direction))',
          })
